@@ -33,4 +33,14 @@ def build(tier):
            functions=F[1:3], bounds='%d-man boards; stack depth %d' % (K, top), stubs=st),
         ]
     obs.append(Ob('O2-l1out', u, 'h_l1out', 'computeL1Out orders the two accumulator halves by side to move', unwind=65, functions=F[3:4], bounds='both sides to move, depth 0', stubs=st))
-    return [u], obs
+    # extended: colour-swap symmetry of one hand-mirrored end-game rule (the only part of EndGameEval that is straight-line bitboard code small enough to encode whole)
+    ue = Unit('endgame', 'C07/endgame.cpp', ['h_bishoppawn_sym', 'h_bishoppawn_mirror'], aliases={'_ZN7BitUtil8firstBitEm': 'model_firstBit', '_ZN7BitUtil7lastBitEm': 'model_lastBit', '_ZN7BitUtil8bitCountEm': 'model_bitCount'},
+              allow_extern=[r'_ZN11NNEvaluator.*', r'_ZN11EndGameEval(?!16isBishopPawnDraw).*', r'_ZN7MoveGen.*', r'_ZN8BitBoard.*', r'_ZN6TBProbe.*', r'_ZNSt.*', r'_ZSt.*', r'_Z\w*kpkTable.*', r'_Z\w*krkpTable.*', r'_Z.*interpolate.*'])
+    obs.append(Ob('O4-bishoppawn-symmetry', ue, 'h_bishoppawn_sym', 'EndGameEval::isBishopPawnDraw<white>(P) == isBishopPawnDraw<black>(colour-swapped P) for every board', unwind=65, core=False, timeout=1800, mem_gb=16, backend='kissat',
+                  functions=['EndGameEval::isBishopPawnDraw<true/false> (endGameEval.cpp:587-720)'], stubs=['firstBit/lastBit/bitCount -> ctz/clz/popcount (proved in C01-O1)'],
+                  bounds='all 13^64 boards with one king each and no pawn on ranks 1/8, both sides to move; material sums computed from the board with the default piece values'))
+    for par, txt in ((0, 'the side has at least one bishop'), (1, 'the side has NO bishop')):
+        obs.append(Ob('O4b-bishoppawn-mirror@%d' % par, ue, 'h_bishoppawn_mirror', 'EndGameEval::isBishopPawnDraw<white>(P) == isBishopPawnDraw<white>(left-right mirrored P), ' + txt, unwind=65, core=False, param=par, timeout=1800, mem_gb=16, backend='kissat',
+                      functions=['EndGameEval::isBishopPawnDraw<true> (endGameEval.cpp:587-720)'], stubs=['firstBit/lastBit/bitCount -> ctz/clz/popcount (proved in C01-O1)'],
+                      bounds='all boards with one king each, no pawn on ranks 1/8, no white queen/rook/knight (the caller\'s precondition), both sides to move'))
+    return [u, ue], obs
